@@ -375,7 +375,7 @@ class Ctx:
             "known_findings_reproduced": [k.get("signature") for k, _ in self.known_hits],
             "unchecked": self.unchecked[:20],
         }
-        with open(os.path.join(EVIDENCE_DIR, self.prop + ".json"), "w") as f:
+        with open(os.path.join(EVIDENCE_DIR, self.prop + getattr(self, "evidence_suffix", "") + ".json"), "w") as f:
             json.dump(ev, f, indent=1, default=str)
         for l in lines:
             print(l)
